@@ -184,35 +184,46 @@ _CTX = None
 def _replay_history(hdesc):
     GOODT = 'PROGRAM p%d\nVAR\n  x : INT;\nEND_VAR\n  x := 1;\nEND_PROGRAM\n'
     BADT = 'PROGRAM q%d\nVAR\n  x : INT;\nEND_VAR\n  y%d := 1;\nEND_PROGRAM\n'
-    def text(uri, t):
+    # second realisation: the diagnostics of a.st depend on what b.st holds (the function block type it uses is declared by b.st's T1 only),
+    # so a server that answers from an earlier analysis of a.st is told apart from a fresh one
+    USER = 'PROGRAM p0\nVAR\n  f : Shared;\n  x : INT;\nEND_VAR\n  f();\n  %s := 1;\nEND_PROGRAM\n'
+    DECL = 'FUNCTION_BLOCK Shared\nVAR\n  n : INT;\nEND_VAR\n  n := 1;\nEND_FUNCTION_BLOCK\n'
+    def text(uri, t, variant):
         i = URIS.index(uri) if uri in URIS else 0
+        if variant == 1:
+            if i == 0: return USER % {'T1': 'x', 'T2': 'y2', 'T3': 'y3'}[t]
+            if t == 'T1': return DECL
         return {'T1': GOODT % i, 'T2': BADT % (i, 2), 'T3': BADT % (i, 3)}[t]
     def rp(ctx):
         import lspclient
-        def run(history):
+        def run(history, variant):
             s = lspclient.LspSession(ctx.ironplcc_path()); last = None
             try:
                 s.initialize()
                 for n, h in enumerate(history):
                     k, uri, ts = h[0], h[1], h[2]; ver = h[3] if len(h) > 3 else 10 + n
                     u = uri.replace('file:///', 'file:///tmp/verif_c11_')
-                    if k == 'open': s.did_open(u, text(uri, ts[0]), ver)
-                    else: s.did_change(u, [text(uri, t) for t in ts], ver)
+                    if k == 'open': s.did_open(u, text(uri, ts[0], variant), ver)
+                    else: s.did_change(u, [text(uri, t, variant) for t in ts], ver)
                     last = s.diagnostics_for(u, version=ver, timeout=5)
             finally:
                 s.close()
             return last
-        got = run(hdesc)
         cur = {}
         for h in hdesc:
             if h[2]: cur[h[1]] = h[2][-1]
         last_uri = hdesc[-1][1]
         fresh_hist = [('open', u, [t]) for u, t in cur.items() if u != last_uri] + ([('open', last_uri, [cur[last_uri]])] if last_uri in cur else [])
-        want = run(fresh_hist) if fresh_hist else None
-        if got is None: return True, {'note': 'no publishDiagnostics for the last notification (server died or did not answer)', 'history': hdesc}
-        g = sorted((d.get('code'), d['range']['start']['line'], d['range']['start']['character']) for d in got['params']['diagnostics'])
-        w = sorted((d.get('code'), d['range']['start']['line'], d['range']['start']['character']) for d in (want['params']['diagnostics'] if want else []))
-        return g != w, {'history': hdesc, 'published': g, 'fresh_server_publishes': w}
+        det = None
+        for variant in (0, 1):
+            got = run(hdesc, variant)
+            want = run(fresh_hist, variant) if fresh_hist else None
+            if got is None: return True, {'note': 'no publishDiagnostics for the last notification (server died or did not answer)', 'history': hdesc}
+            g = sorted((d.get('code'), d['range']['start']['line'], d['range']['start']['character']) for d in got['params']['diagnostics'])
+            w = sorted((d.get('code'), d['range']['start']['line'], d['range']['start']['character']) for d in (want['params']['diagnostics'] if want else []))
+            det = {'history': hdesc, 'texts': ['independent programs', 'a.st uses a function block that only T1 of b.st declares'][variant], 'published': g, 'fresh_server_publishes': w}
+            if g != w: return True, det
+        return False, det
     return rp
 
 @kernel('K3 lsp.notification_histories')
